@@ -229,6 +229,11 @@ func (pb *PrimaryBlock) UnmarshalCbor(r io.Reader) error {
 		}
 	}
 
+	// The fragment fields are present if and only if the bundle is marked as a fragment.
+	if hasFragFields := blockLen == 10 || blockLen == 11; hasFragFields != pb.HasFragmentation() {
+		return fmt.Errorf("array of %d elements contradicts the fragment flag (%t)", blockLen, pb.HasFragmentation())
+	}
+
 	if blockLen == 9 || blockLen == 11 {
 		if crcCalc, crcErr := calculateCRCBuff(crcBuff, pb.CRCType); crcErr != nil {
 			return crcErr
